@@ -54,6 +54,10 @@ impl<OT: OtReceiver<Msg = Block> + Malicious> Sender<OT> {
             let q: [u8; 16] = q.try_into().unwrap();
             let q = Block::from(q);
             shared_rand.fill_bytes(chi.as_mut());
+            #[cfg(polytune_verif)]
+            if j == 0 {
+                crate::verif::probe("kos_chi_sender", p_to, &[u128::from(chi)]);
+            }
             let (lo, hi) = q.clmul(&chi);
             check = xor_two_blocks(&check, &(lo, hi));
         }
@@ -177,6 +181,10 @@ impl<OT: OtSender<Msg = Block> + Malicious> Receiver<OT> {
             let tj: [u8; 16] = tj.try_into().unwrap();
             let tj = Block::from(tj);
             shared_rand.fill_bytes(chi.as_mut());
+            #[cfg(polytune_verif)]
+            if j == 0 {
+                crate::verif::probe("kos_chi_receiver", p_to, &[u128::from(chi)]);
+            }
             x ^= if xj { chi } else { Block::default() };
             let (lo, hi) = tj.clmul(&chi);
             t = xor_two_blocks(&t, &(lo, hi));
